@@ -1,8 +1,78 @@
 /-
-  C10 — theorems are being added (see DESIGN.md §7 C10)
+  C10 — no terminal stall or configuration value can hang a client call.
+
+  The model functions are total and have no `hang` outcome above the sequence level: every wait on the
+  terminal is under a timer. The theorems bound the virtual time. What the model cannot exhibit: the
+  executor (tokio's timer wheel and wakers); the harness drives the real client on the paused clock and
+  compares time stamps exactly (DESIGN.md §12).
 -/
-import ZvtVerif.Client
+import ZvtVerif.Proofs.ClientLemmas
 namespace Zvt.C10
 open Zvt
+
+/-- the per-packet time-out of card reading for EVERY configuration byte: `t + 2`, computed without
+overflow (it fits 64 bits with room to spare) and never zero (at least 2 s). -/
+theorem timeout_no_overflow (t : Nat) (h : t ≤ 255) :
+    readCardTimeoutOf t = t + 2 ∧ 2 ≤ readCardTimeoutOf t ∧ readCardTimeoutOf t ≤ 257 ∧ readCardTimeoutOf t < 2 ^ 64 := by
+  unfold readCardTimeoutOf; omega
+
+/-- one `stream.next()` consumes no time by itself. -/
+theorem next_takes_no_time (d : SeqDesc) (w : World) (c : ConnSt) (st : SeqSt) :
+    (seqNext d w c st).2.1.now = w.now := seqNext_now d w c st
+
+/-- the handshake (TCP connect, registration, system info) is bounded by `TIMEOUT` wherever the
+terminal falls silent in it. -/
+theorem connect_bounded (cfg : Cfg) (w : World) :
+    (connect cfg w).1.now = w.now ∨ (connect cfg w).1.now = w.now + TIMEOUT := connect_now cfg w
+
+/-- an attempt on a live connection ends at most one packet time-out after it began. -/
+theorem attempt_bounded {σ ρ : Type} (d : SeqDesc) (timeout : Nat) (step : σ → Item → Step σ ρ)
+    (fuel : Nat) (w : World) (c : ConnSt) (st : SeqSt) (s : σ) :
+    (runItems d timeout step fuel w c st s).2.1.now ≤ w.now + timeout := (runItems_now d timeout step fuel w c st s).2
+
+/-- **Every exchange with retries returns within `ATTEMPTS × (THROTTLE + TIMEOUT + timeout)`** virtual
+seconds, for every terminal script, fault table, connection behaviour and caller loop. -/
+theorem exchange_bounded {σ ρ : Type} (cfg : Cfg) (seqName : String) (cmd : Bytes) (timeout : Nat)
+    (step : σ → Item → Step σ ρ) (w : World) (s : σ) :
+    (runOp cfg seqName cmd timeout step w s).2.now ≤ w.now + ATTEMPTS * (THROTTLE + TIMEOUT + timeout) :=
+  runOp_now cfg seqName cmd timeout step w s
+
+/-- the budgets with the constants of the source: 20 × (2 + 60 + 60) = 2440 s for ordinary exchanges. -/
+theorem budget_default : ATTEMPTS * (THROTTLE + TIMEOUT + TIMEOUT) = 2440 := by decide
+
+/-- **read_card** for every `read_card_timeout` 0..255: at most 20 × (2 + 60 + t + 2) ≤ 6380 s. -/
+theorem readCard_bounded (cfg : Cfg) (w : World) (h : cfg.readCardTimeout ≤ 255) :
+    (readCard cfg w).2.now ≤ w.now + 6380 := by
+  unfold readCard
+  have hb := runOp_now cfg "sequences::ReadCard" (readCardCmd cfg) (readCardTimeoutOf cfg.readCardTimeout)
+    (readCardStep (findEnumG "sequences::ReadCardResponse")) w none
+  generalize runOp cfg "sequences::ReadCard" (readCardCmd cfg) (readCardTimeoutOf cfg.readCardTimeout)
+    (readCardStep (findEnumG "sequences::ReadCardResponse")) w none = q at hb ⊢
+  obtain ⟨st, w'⟩ := q
+  have : ATTEMPTS * attemptBudget (readCardTimeoutOf cfg.readCardTimeout) ≤ 6380 := by
+    simp only [ATTEMPTS, attemptBudget, THROTTLE, TIMEOUT, readCardTimeoutOf]; omega
+  simp only at hb
+  cases st with
+  | ret r => simp only; omega
+  | cont s => cases s <;> (simp only; omega)
+
+/-- **begin** : refused at once, or one reservation exchange. -/
+theorem begin_bounded (cfg : Cfg) (cl : Client) (token : List Nat) (w : World) :
+    (beginTx cfg cl token w).2.2.now ≤ w.now + 2440 := by
+  unfold beginTx
+  split
+  · simp
+  · split
+    · simp
+    · have hb := runOp_now cfg "sequences::Reservation" (reservationCmd cfg token) TIMEOUT
+        (beginStep (findEnumG "sequences::AuthorizationResponse")) w none
+      generalize runOp cfg "sequences::Reservation" (reservationCmd cfg token) TIMEOUT
+        (beginStep (findEnumG "sequences::AuthorizationResponse")) w none = q at hb ⊢
+      obtain ⟨st, w'⟩ := q
+      have : ATTEMPTS * attemptBudget TIMEOUT = 2440 := by decide
+      simp only at hb
+      cases st with
+      | ret r => simp only [beginFold]; omega
+      | cont s => cases s <;> (simp only [beginFold]; omega)
 
 end Zvt.C10
